@@ -102,10 +102,18 @@ def harness(S, spec):
                 isq = isinstance(x, Q)
             return x.__int__() if isq else int(x)
         am.int = _int
+
+        def _round(x, *a):
+            from crosshair.tracers import NoTracing
+            with NoTracing():
+                isq = isinstance(x, Q)
+            return x.__round__(*a) if isq else round(x, *a)
+        am.round = _round
     else:
         import math as _m
         am.math = _m
         am.int = int
+        am.round = round
     VT.now = S.int('now', NOW0, NOW0 + 10 ** 6)
     calls = []
     outcome = spec['outcome']
